@@ -42,10 +42,13 @@ CallIs(e, c) == \* c = <<call, file>> of the state() decision tree
          [] c[1] = "scandir" -> e.op = "opendir"
          [] OTHER -> e.op = c[1]
 
+\* what a file operation of the guard / an owning cleaner observes
+OpObs(o) == IF o.op = "unlink" /\ ~exists[o.f] THEN "enoent" ELSE "ok"
+
 SysG(e) ==
     /\ gpc < LC + LD
     /\ OpIs(e, GNextOp)
-    /\ e.obs = "ok"
+    /\ e.obs = OpObs(GNextOp)
     /\ (GCreateStep \/ GDropStep)
 
 SysP(e, p) ==
@@ -66,7 +69,7 @@ SysP(e, p) ==
     \/ /\ ps[p].pc = "cfail" /\ e.op = "close" /\ CFailStep(p)
     \/ /\ ps[p].pc \in {"owner", "drop"}
        /\ OpIs(e, CleanerDrop[IF ps[p].pc = "owner" THEN 1 ELSE ps[p].idx])
-       /\ e.obs = "ok"
+       /\ e.obs = OpObs(CleanerDrop[IF ps[p].pc = "owner" THEN 1 ELSE ps[p].idx])
        /\ CDropStep(p)
 
 Consume ==
